@@ -96,7 +96,7 @@ def jvp_defined(tag, fn_getter, shapes, pre=None, units=(), native=None, tiers=(
       return native() if native else {'reproduced': False}
     return P, goal, replay
   return smt_custom('C03/%s/jvp_defined' % tag, fn_getter.__doc__ or tag, 'in the forward-mode derivative program every denominator is non-zero and every radicand is non-negative for ALL inputs in the '
-                    'precondition, singular inputs included', body, tiers=tiers, timeout=timeout, budget=3 * timeout)
+                    'precondition, singular inputs included', body, tiers=tiers, timeout=timeout, budget=3 * timeout, abstract=True)
 
 
 def _g_safe_norm():
